@@ -46,7 +46,15 @@ def main(mod):
     if a.replay:
         payload = json.load(open(a.replay))
         fl = payload['case']
-        msg = run_case(mod, fl['check'], fl['input'])
+        if fl['check'] == '_generate':
+            try:
+                for _ in mod.generate('quick', random.Random(0)):
+                    pass
+                msg = None
+            except Exception as e:
+                msg = 'exception while enumerating cases: %s: %s' % (type(e).__name__, e)
+        else:
+            msg = run_case(mod, fl['check'], fl['input'])
         if msg:
             print('REPRODUCED %s: %s' % (fl['id'], msg))
             print('VIOLATION property=%s replay=%s' % (payload['property'], a.replay))
@@ -60,7 +68,18 @@ def main(mod):
     failures = []
     samples = []
     per_check = {}
-    for item in mod.generate(a.tier, rng):
+    gen = iter(mod.generate(a.tier, rng))
+    while True:
+        try:
+            item = next(gen)
+        except StopIteration:
+            break
+        except Exception as e:
+            # the enumeration itself drives the library (e.g. replays refinement histories to know the active cells): an
+            # exception there is a failure of the library on a valid call sequence
+            failures.append({'id': '_generate:%s' % type(e).__name__, 'check': '_generate', 'input': {},
+                             'observed': 'exception while enumerating cases: %s: %s | %s' % (type(e).__name__, e, traceback.format_exc(limit=6).replace('\n', ' / ')[-900:])})
+            break
         name, case = item[0], item[1]
         key = item[2] if len(item) > 2 else __import__('hashlib').sha256(json.dumps(case, sort_keys=True, default=str).encode()).hexdigest()
         n += 1
